@@ -26,6 +26,7 @@ import Mathlib.Tactic.Ring
 import Mathlib.Tactic.Linarith
 import QV.Model.Stats
 import QV.Lemmas.Stats
+import QV.GenBridge.UpdateStatistics
 
 namespace QV.Props
 namespace C13
